@@ -1,307 +1,530 @@
 """C15  Every traversal visits each node or edge exactly once in its defining order.
 
-Monitor = trace recorder: every iterator of Tree and Node is drained into a list of node/edge ids and compared
-with a reference sequence computed recursively on the spec (raw child lists) of the same tree:
-  pre-order (parent first, siblings left to right) . post-order (children first) . level-order (what a FIFO queue
-  gives: non-decreasing depth, left-to-right inside a level) . in-order (binary trees; others must raise the
-  documented TypeError) . leaves left to right . age order (a permutation of the same node set with monotone age;
-  ties in any order) . ancestors . children
-  filtered variants = exactly the subsequence passing the filter (filters returning True/False, truthy non-bool and
-  falsy non-False values) . internal-node variants = the non-leaves, the seed (parentless node) optionally excluded .
-  each edge iterator = the edges of its node counterpart in the same order . len(tree) = number of leaves .
-  apply(before, after, leaf) = bracket-matched reference trace of the subtree of the start node.
-Every node of every tree is used as start node for the Node.* family."""
+Monitor = trace recorder: every iterator of Tree and Node (canonical names AND their deprecated aliases) is drained
+into a list of node/edge ids and compared with a reference sequence computed ITERATIVELY on the raw child lists of the
+same tree (index model in _c15_util.Model; cross-checked once per process against the recursive definitions):
+  pre-order (parent first, siblings left to right) . post-order (children first) . level-order (same node set,
+  depth never decreases; the left-to-right FIFO order inside a level is recorded, not judged) . in-order (binary
+  trees; others must raise the documented TypeError) . leaves left to right . age order (a permutation of the same
+  node set with monotone age; ties in any order) . ancestors . children
+  filtered variants = exactly the subsequence passing the filter (five predicate classes: none, True/False, truthy
+  non-bool, falsy non-False values, and predicate OBJECTS that are themselves falsy) . internal-node variants = the
+  non-leaves, the seed (parentless node) optionally excluded . each edge iterator = the edges of its node counterpart
+  in the same order . len(tree) = number of leaves . apply(before, after, leaf) = bracket-matched reference trace of
+  the subtree of the start node, for every non-empty subset of the three callbacks.
+Tree histories: built through the node API; ages assigned by the harness, or never assigned on an exactly ultrametric
+tree (the lazy calc_node_ages route); trees edited through the library's mutators / cloned / re-read from Newick before
+(and between) the traversals; three directed shapes deeper than the recursion limit.
+Every drain is capped (n+1 items) and, for a fixed part of the cases and for every case once anything ran away, runs
+under a logical step budget (vf.mon.budget) so that a non-terminating iterator is a violation of 'exactly once'."""
+import itertools
 import random
 
 from .. import ref, gen, bridge, core
+from ..mon import budget as _budget, arbor
+from . import _c15_util as U
 
 PROP = "C15"
-LEVEL_TEXT = 'Every Tree.* and Node.* iterator and apply() is drained from every start node of every generated tree and compared with reference sequences computed recursively on the raw child lists, for four filter classes (none, bool, truthy non-bool, falsy non-False).'
-LEVEL_NOTE = 'Trusted: the recursive reference traversals in the module (a dozen lines each).'
+LEVEL_TEXT = ('Every Tree.* and Node.* iterator (canonical and deprecated alias), child_edge_iter/child_edges and apply() is drained '
+              'from every start node of every generated tree and compared with iterative reference sequences computed on the raw '
+              'child lists, for five filter classes (none, bool, truthy non-bool, falsy non-False, falsy callable object), age order '
+              'over the full include_leaves x descending x filter grid with harness-assigned and lazily computed ages, on fresh, '
+              'edited, cloned and re-read trees and on three shapes deeper than the recursion limit; drains are capped and step-budgeted.')
+LEVEL_NOTE = 'Trusted: the iterative reference traversals in _c15_util.Model (a dozen lines each; cross-checked against the recursive definitions on all shapes with <= 5 leaves at start-up).'
 LEVEL = "exploration"
-TECHNIQUE = "runtime monitoring: trace recorder over all Tree/Node iterators and apply(), offline comparison with reference traversal sequences"
-RULE = ("tree = every shape n<=5 (+ single node, unary root/chains, wide polytomies) and random trees; x every start node x every iterator "
-        "kind x filter predicate class; non-trivial = tree with >= 3 nodes; distinct = (ordered tree signature, iterator, filter class)")
+TECHNIQUE = ("runtime monitoring: trace recorder over all Tree/Node iterators and apply() (capped drains, logical step budget), "
+             "offline comparison with reference traversal sequences")
+RULE = ("tree = every shape n<=5 (+ single node, unary root/chains, wide polytomies), random trees, and caterpillar / unary chain / polytomy comb "
+        "of depth 1500 (thorough: also 2500); history = fresh | 1-3 library edits (child-list mutators, reseed/reroot, prune, collapse, clone, extract, Newick round trip) "
+        "| traversed, edited, traversed again; ages = harness-assigned (with ties and 0) | never assigned on a dyadic ultrametric tree | re-assigned; "
+        "x every start node x every iterator route x filter predicate class; non-trivial = tree with >= 3 nodes; "
+        "distinct = (ordered tree signature, route actually run, filter class)")
 REACH = ["_node:Node.preorder_iter", "_node:Node.postorder_iter", "_node:Node.levelorder_iter", "_node:Node.inorder_iter",
          "_node:Node.leaf_iter", "_node:Node.ageorder_iter", "_node:Node.ancestor_iter", "_node:Node.preorder_internal_node_iter",
          "_node:Node.postorder_internal_node_iter", "_node:Node.apply", "_tree:Tree.preorder_edge_iter", "_tree:Tree.postorder_edge_iter",
          "_tree:Tree.preorder_internal_edge_iter", "_tree:Tree.postorder_internal_edge_iter", "_tree:Tree.levelorder_edge_iter",
          "_tree:Tree.leaf_edge_iter", "_tree:Tree.inorder_edge_iter", "_tree:Tree.__len__", "_tree:Tree.apply",
-         "_node:Node.child_node_iter", "_tree:Tree.ageorder_node_iter"]
-MIN_EVENTS = {"trace-compared": (20000, 500000), "apply-trace-compared": (2000, 50000), "inorder-typeerror-seen": (50, 500)}
-ASSUMPTIONS = ["reference sequences are computed on the spec extracted from the raw child lists (vf.bridge.extract)"]
+         "_node:Node.child_node_iter", "_tree:Tree.ageorder_node_iter",
+         "_tree:Tree.calc_node_ages", "_node:Node.child_edge_iter", "_node:Node.child_edges", "_node:Node.level_order_iter",
+         "_node:Node.age_order_iter", "_tree:Tree.level_order_node_iter", "_tree:Tree.leaf_iter", "_tree:Tree.age_order_node_iter",
+         "_tree:Tree.level_order_edge_iter", "_node:Node.leaf_nodes", "_node:Node.child_nodes"]
+MIN_EVENTS = {"trace-compared": (2000000, 2600000), "apply-trace-compared": (40000, 42000), "inorder-typeerror-seen": (45000, 64000),
+              "apply-partial-trace-compared": (50000, 72000), "apply-falsy-callable-compared": (8000, 11000),
+              "age-order-compared": (250000, 340000), "age-order-vs-heights-compared": (9000, 22000),
+              "lazy-ages-computed-by-first-call": (350, 830), "len-compared": (1200, 3000),
+              "drain-under-step-budget": (400000, 490000), "second-traversal-after-edit": (100, 270), "history:edited": (270, 700)}
+MIN_EVENTS.update(("edit:" + _name, (20, 60)) for _name in U.EDITS)
+ASSUMPTIONS = ["reference sequences are computed on the spec extracted from the raw child lists (vf.bridge.extract)",
+               "in-order on a subtree that is not strictly bifurcating must raise TypeError (docstring: 'only valid for strictly-bifurcating trees'; the library raises it explicitly)",
+               "level-order is judged as the statement says (same node set, non-decreasing depth); queue order inside a level is recorded only",
+               "exclude_seed_node excludes the parentless node of the tree (not the start node of a Node.* traversal), as the library documents",
+               "after library edits a tree is only traversed when its raw pointers are still consistent (vf.mon.arbor); otherwise the case is noted and skipped (mutators are other properties' scope)",
+               "lazily computed ages are judged on exactly ultrametric dyadic edge lengths only"]
+
+CASE_TIMEOUT = 180       # the deep directed cases need some 5-15 s of CPU; the machine may be shared (the watchdog never decides a verdict)
+FILTERS = U.FILTERS
+_STATE = {"budget_all": False, "deprecations_silenced": False, "runaways": {}}
 
 
-# ---- reference traversals on spec nodes -----------------------------------------------------------
-def r_pre(s):
-    out = [s]
-    for c in s[3]:
-        out += r_pre(c)
-    return out
-
-
-def r_post(s):
-    out = []
-    for c in s[3]:
-        out += r_post(c)
-    return out + [s]
-
-
-def r_level(s):
-    out, q = [], [s]
-    while q:
-        n = q.pop(0)
-        out.append(n)
-        q.extend(n[3])
-    return out
-
-
-def r_in(s):
-    if not s[3]:
-        return [s]
-    if len(s[3]) != 2:
-        raise TypeError
-    return r_in(s[3][0]) + [s] + r_in(s[3][1])
-
-
-def r_apply(s):
-    if not s[3]:
-        return [("l", id(s))]
-    out = [("b", id(s))]
-    for c in s[3]:
-        out += r_apply(c)
-    return out + [("a", id(s))]
-
-
-FILTERS = ("none", "bool", "truthy", "falsy")
-
-
-def make_filter(kind, marks):
-    """marks: set of ids (of live objects) that pass."""
-    if kind == "none":
-        return None
-    if kind == "bool":
-        return lambda x: id(x) in marks
-    if kind == "truthy":
-        return lambda x: ("yes", 1) if id(x) in marks else False
-    return lambda x: 1 if id(x) in marks else random.choice([0, "", None, []])
+class _Runaway(Exception):
+    """raised from a harness callback to stop an apply() that made more calls than any traversal can"""
 
 
 class Checker(object):
-    def __init__(self, ctx, tree, detail):
+    def __init__(self, ctx, tree, detail, budgeted, treetext=None):
         self.ctx = ctx
         self.tree = tree
-        self.spec, pairs = bridge.extract(tree, with_nodes=True)
-        self.s2n = dict((id(s), nd) for s, nd in pairs)
-        self.n2s = dict((id(nd), s) for s, nd in pairs)
-        self.pm = ref.parent_map(self.spec)
+        self.m = U.Model(tree)
         self.detail = detail
-        self.newick = ref.to_newick(self.spec)
-
-    def live(self, seq):
-        return [id(self.s2n[id(s)]) for s in seq]
+        self.newick = treetext or ref.to_newick(self.m.spec)
+        self.sb = None
+        self.dead = set()
+        self.budgeted = budgeted or _STATE["budget_all"]
+        self.cap = self.m.n + 1
+        # logical step budget of ONE call: generous enough for any terminating traversal, also a quadratic one (the
+        # unchanged library needs about 3 steps per node; its recursive in-order about depth steps per node)
+        n = self.m.n
+        self.limit = 2000 + 200 * n + 20 * n * n
+        self.limit_quadratic = self.limit
+        self.seen = set()
 
     def names(self, ids, edges=False):
-        pre = r_pre(self.spec)
-        idx = {}
-        for i, s in enumerate(pre):
-            nd = self.s2n[id(s)]
-            idx[id(nd._edge if edges else nd)] = i
-        return [idx.get(i, "?") for i in ids]
+        idx = self.m.idx_of_eid if edges else self.m.idx_of_nid
+        return [idx.get(i, "?") for i in ids][:60]
 
-    def compare(self, what, got_iter, want_ids, filt, edges=False, start=None):
+    # ---- guarded calls into the library ---------------------------------------------------------
+    def guarded(self, what, fn, det, limit=None, expect=None):
+        """runs fn() under the (re-armed) logical step budget.  Returns (True, result), ("raised", exc) for an
+        exception of class ``expect`` raised by library code, or (False, None) after a report."""
         ctx = self.ctx
+        sb = self.sb
+        if what in self.dead or _STATE["runaways"].get(what, 0) >= 5:
+            # the verdict on this route is given; neither the run-up to the recursion limit nor the wait for the step
+            # budget is repeated on the same tree (nor, after 5 runaways of one route, in this process)
+            ctx.note("route-not-repeated-after-RecursionError-or-runaway")
+            return False, None
         try:
-            got = [id(x) for x in got_iter]
+            if sb is not None:
+                sb.arm(limit or self.limit)
+                ctx.ev("drain-under-step-budget")
+            return True, fn()
+        except _budget.StepBudgetExceeded as e:
+            sb.arm(1 << 60)
+            _STATE["budget_all"] = True
+            _STATE["runaways"][what] = _STATE["runaways"].get(what, 0) + 1
+            self.dead.add(what)
+            ctx.violation("%s|does-not-terminate|step-budget" % what,
+                          "more than %d loop steps inside the library for a tree of %d nodes (at %s)" % (limit or self.limit, self.m.n, e.where), det)
         except core.CaseTimeout:
+            _STATE["budget_all"] = True       # the wall clock never decides: it only switches every later case to the step budget
             raise
+        except _Runaway:
+            raise
+        except RecursionError as e:
+            self.dead.add(what)
+            ctx.violation("%s|recursion-limit|%s" % (what, U.recursing_function(e)),
+                          "%s raised RecursionError on a tree of %d nodes and depth %d" % (what, self.m.n, self.m.max_depth), det)
         except Exception as e:
-            ctx.unexpected(what, e, {"tree": self.newick, "filter": filt, "start": start})
-            return
+            if expect is not None and isinstance(e, expect) and core.raised_in_repo(e):
+                return "raised", e
+            ctx.unexpected(what, e, det)
+        return False, None
+
+    def drain(self, what, thunk, filt, start=None, limit=None):
+        """list of at most n+1 yielded objects, or None after a report (exception / runaway)."""
+        det = {"tree": self.newick, "filter": filt, "start": start}
+        cap = self.cap
+        ok, got = self.guarded(what, lambda: list(itertools.islice(thunk(), cap)), det, limit)
+        if ok is not True:
+            return None
+        if len(got) >= cap:
+            self.ctx.violation("%s|yields-more-items-than-the-tree-has" % what,
+                               "still yielding after %d items; the tree has %d nodes" % (len(got), self.m.n), det)
+            return None
+        return got
+
+    def compare(self, what, thunk, want_ids, filt, edges=False, start=None, limit=None):
+        ctx = self.ctx
+        got = self.drain(what, thunk, filt, start, limit)
+        if got is None:
+            return None
+        got = [id(x) for x in got]
         ctx.ev("trace-compared")
+        self.seen.add((what, filt.split(",")[0]))
         if got != want_ids:
-            if sorted(got) == sorted(want_ids):
-                clause = "wrong-order"
-            elif len(set(got)) != len(got):
-                clause = "visits-twice"
-            elif set(got) - set(want_ids):
-                clause = "visits-extra"
-            else:
-                clause = "misses"
-            ctx.violation("%s|%s|filter=%s" % (what, clause, filt),
+            ctx.violation("%s|%s|filter=%s" % (what, self.clause(got, want_ids), filt),
                           "visited (pre-order indices) %s, reference %s" % (self.names(got, edges), self.names(want_ids, edges)),
                           {"tree": self.newick, "start": start, "filter": filt})
+        return got
 
-    # ------------------------------------------------------------------
-    def run(self, rng, all_starts=True):
+    @staticmethod
+    def clause(got, want):
+        if sorted(got) == sorted(want):
+            return "wrong-order"
+        if len(set(got)) != len(got):
+            return "visits-twice"
+        if set(got) - set(want):
+            return "visits-extra"
+        return "misses"
+
+    def compare_level(self, what, thunk, want_idx, ok, filt, edges=False, start=None):
+        """level order as the statement defines it: the same set, depth never decreases."""
+        ctx = self.ctx
+        m = self.m
+        got = self.drain(what, thunk, filt, start)
+        if got is None:
+            return None
+        got = [id(x) for x in got]
+        ctx.ev("trace-compared")
+        self.seen.add((what, filt))
+        ids = m.eid if edges else m.nid
+        want = [ids[i] for i in want_idx if ok[i]]
+        if got == want:
+            return got
+        det = {"tree": self.newick, "start": start, "filter": filt}
+        if sorted(got) != sorted(want):
+            ctx.violation("%s|%s|filter=%s" % (what, self.clause(got, want), filt),
+                          "visited (pre-order indices) %s, reference %s" % (self.names(got, edges), self.names(want, edges)), det)
+            return got
+        back = m.idx_of_eid if edges else m.idx_of_nid
+        dp = [m.depth[back[x]] for x in got]
+        if any(a > b for a, b in zip(dp, dp[1:])):
+            ctx.violation("%s|depth-decreases|filter=%s" % (what, filt), "depths visited %s" % dp[:60], det)
+        else:
+            ctx.note("levelorder-not-queue-order:%s" % what)
+        return got
+
+    def expect_typeerror(self, what, thunk, filt, start=None):
+        """in-order on a subtree that is not strictly bifurcating"""
+        ctx = self.ctx
+        det = {"tree": self.newick, "filter": filt, "start": start}
+        cap = self.cap
+        ok, got = self.guarded(what, lambda: list(itertools.islice(thunk(), cap)), det, self.limit_quadratic, expect=TypeError)
+        if ok == "raised":
+            ctx.ev("inorder-typeerror-seen")
+            self.seen.add((what + "[non-binary]", filt))
+        elif ok is True:
+            ctx.violation("%s|no-TypeError-on-non-binary-tree" % what,
+                          "in-order on a subtree that is not strictly bifurcating did not raise (%d items yielded)" % len(got), det)
+
+    # ---- the routes ----------------------------------------------------------------------------------
+    def run(self, rng, all_starts=True, lazy_ages=False, node_filters=2, grid_at_starts=1, n_starts=6, full_root=True):
+        """the whole battery; when the case is budgeted one vf.mon.budget block stays open and is re-armed per call"""
+        if not self.budgeted:
+            return self._run(rng, all_starts, lazy_ages, node_filters, grid_at_starts, n_starts, full_root)
+        self.sb = U.StepBudget()
+        self.sb.open()
+        try:
+            return self._run(rng, all_starts, lazy_ages, node_filters, grid_at_starts, n_starts, full_root)
+        finally:
+            self.sb.close()
+            self.sb = None
+
+    def _run(self, rng, all_starts, lazy_ages, node_filters, grid_at_starts, n_starts, full_root):
         tree = self.tree
         ctx = self.ctx
-        spec = self.spec
-        pre = r_pre(spec)
-        node_of = lambda s: self.s2n[id(s)]
-        edge_id = lambda s: id(node_of(s)._edge)
-        nid = lambda s: id(node_of(s))
-        marks_n = set(nid(s) for s in pre if rng.random() < 0.5)
-        marks_e = set(edge_id(s) for s in pre if rng.random() < 0.5)
-        is_seed = lambda s: self.pm[id(s)] is None
-        binary = True
-        try:
-            inorder = r_in(spec)
-        except TypeError:
-            binary = False
+        m = self.m
+        n = m.n
+        C = self.compare
+        nid, eid, leaf = m.nid, m.eid, m.leaf
+        marks_n = set(x for x in nid if rng.random() < 0.5)
+        marks_e = set(x for x in eid if rng.random() < 0.5)
+        all_ok = [True] * n
+        okn_m = [x in marks_n for x in nid]
+        oke_m = [x in marks_e for x in eid]
+        pre = m.pre(0)
+        post = m.post
+        level = m.level(0)
+        inorder = m.inorder(0)
+        ages = None
+        if lazy_ages:
+            ages = self.lazy_age_block(rng, marks_n, okn_m)
+        T = "Tree."
         for filt in FILTERS:
-            fn = make_filter(filt, marks_n)
-            fe = make_filter(filt, marks_e)
-            okn = (lambda s: True) if filt == "none" else (lambda s: nid(s) in marks_n)
-            oke = (lambda s: True) if filt == "none" else (lambda s: edge_id(s) in marks_e)
-            T = "Tree."
-            self.compare(T + "preorder_node_iter", tree.preorder_node_iter(fn), [nid(s) for s in pre if okn(s)], filt)
-            self.compare(T + "postorder_node_iter", tree.postorder_node_iter(fn), [nid(s) for s in r_post(spec) if okn(s)], filt)
-            self.compare(T + "levelorder_node_iter", tree.levelorder_node_iter(fn), [nid(s) for s in r_level(spec) if okn(s)], filt)
-            self.compare(T + "leaf_node_iter", tree.leaf_node_iter(fn), [nid(s) for s in pre if not s[3] and okn(s)], filt)
-            self.compare(T + "nodes", tree.nodes(fn), [nid(s) for s in pre if okn(s)], filt)
+            fn = U.make_filter(filt, marks_n, rng)
+            fe = U.make_filter(filt, marks_e, rng)
+            okn = all_ok if filt == "none" else okn_m
+            oke = all_ok if filt == "none" else oke_m
+            N = lambda seq: [nid[i] for i in seq if okn[i]]
+            E = lambda seq: [eid[i] for i in seq if oke[i]]
+            C(T + "preorder_node_iter", lambda: tree.preorder_node_iter(fn), N(pre), filt)
+            C(T + "postorder_node_iter", lambda: tree.postorder_node_iter(filter_fn=fn), N(post), filt)
+            self.compare_level(T + "levelorder_node_iter", lambda: tree.levelorder_node_iter(fn), level, okn, filt)
+            self.compare_level(T + "level_order_node_iter", lambda: tree.level_order_node_iter(fn), level, okn, filt)
+            C(T + "leaf_node_iter", lambda: tree.leaf_node_iter(fn), [nid[i] for i in pre if leaf[i] and okn[i]], filt)
+            C(T + "leaf_iter", lambda: tree.leaf_iter(filter_fn=fn), [nid[i] for i in pre if leaf[i] and okn[i]], filt)
+            C(T + "nodes", lambda: tree.nodes(fn), N(pre), filt)
             for ex in (False, True):
-                keep = lambda s: s[3] and not (ex and is_seed(s))
-                self.compare(T + "preorder_internal_node_iter", tree.preorder_internal_node_iter(fn, exclude_seed_node=ex),
-                             [nid(s) for s in pre if keep(s) and okn(s)], filt + (",exclude_seed" if ex else ""))
-                self.compare(T + "postorder_internal_node_iter", tree.postorder_internal_node_iter(fn, exclude_seed_node=ex),
-                             [nid(s) for s in r_post(spec) if keep(s) and okn(s)], filt + (",exclude_seed" if ex else ""))
-                self.compare(T + "preorder_internal_edge_iter", tree.preorder_internal_edge_iter(fe, exclude_seed_edge=ex),
-                             [edge_id(s) for s in pre if keep(s) and oke(s)], filt + (",exclude_seed" if ex else ""), edges=True)
-                self.compare(T + "postorder_internal_edge_iter", tree.postorder_internal_edge_iter(fe, exclude_seed_edge=ex),
-                             [edge_id(s) for s in r_post(spec) if keep(s) and oke(s)], filt + (",exclude_seed" if ex else ""), edges=True)
-            self.compare(T + "preorder_edge_iter", tree.preorder_edge_iter(fe), [edge_id(s) for s in pre if oke(s)], filt, edges=True)
-            self.compare(T + "postorder_edge_iter", tree.postorder_edge_iter(fe), [edge_id(s) for s in r_post(spec) if oke(s)], filt, edges=True)
-            self.compare(T + "levelorder_edge_iter", tree.levelorder_edge_iter(fe), [edge_id(s) for s in r_level(spec) if oke(s)], filt, edges=True)
-            self.compare(T + "leaf_edge_iter", tree.leaf_edge_iter(fe), [edge_id(s) for s in pre if not s[3] and oke(s)], filt, edges=True)
-            self.compare(T + "edges", tree.edges(fe), [edge_id(s) for s in pre if oke(s)], filt, edges=True)
-            if binary:
-                self.compare(T + "inorder_node_iter", tree.inorder_node_iter(fn), [nid(s) for s in inorder if okn(s)], filt)
-                self.compare(T + "inorder_edge_iter", tree.inorder_edge_iter(fe), [edge_id(s) for s in inorder if oke(s)], filt, edges=True)
-        self.compare("Tree.__iter__", iter(tree), [nid(s) for s in pre], "none")
-        self.compare("Tree.leaf_nodes", tree.leaf_nodes(), [nid(s) for s in pre if not s[3]], "none")
-        self.compare("Tree.leaf_edges", tree.leaf_edges(), [edge_id(s) for s in pre if not s[3]], "none", edges=True)
+                keep = [not leaf[i] and not (ex and i == 0) for i in range(n)]
+                f2 = filt + (",exclude_seed" if ex else "")
+                C(T + "preorder_internal_node_iter", lambda: tree.preorder_internal_node_iter(fn, exclude_seed_node=ex),
+                  [nid[i] for i in pre if keep[i] and okn[i]], f2)
+                C(T + "postorder_internal_node_iter", lambda: tree.postorder_internal_node_iter(fn, exclude_seed_node=ex),
+                  [nid[i] for i in post if keep[i] and okn[i]], f2)
+                C(T + "preorder_internal_edge_iter", lambda: tree.preorder_internal_edge_iter(fe, exclude_seed_edge=ex),
+                  [eid[i] for i in pre if keep[i] and oke[i]], f2, edges=True)
+                C(T + "postorder_internal_edge_iter", lambda: tree.postorder_internal_edge_iter(fe, exclude_seed_edge=ex),
+                  [eid[i] for i in post if keep[i] and oke[i]], f2, edges=True)
+            C(T + "preorder_edge_iter", lambda: tree.preorder_edge_iter(fe), E(pre), filt, edges=True)
+            C(T + "postorder_edge_iter", lambda: tree.postorder_edge_iter(fe), E(post), filt, edges=True)
+            for alias in ("levelorder_edge_iter", "level_order_edge_iter"):
+                got = self.compare_level(T + alias, lambda: getattr(tree, alias)(fe), level, oke, filt, edges=True)
+                if got is not None:
+                    # the statement's edge clause: the edges of the nodes the node counterpart yields, in the same order
+                    fcp = None if fe is None else (lambda nd: fe(nd._edge))
+                    cp = self.drain(T + "levelorder_node_iter", lambda: tree.levelorder_node_iter(fcp), filt)
+                    if cp is not None and got != [id(nd._edge) for nd in cp]:
+                        ctx.violation("%s%s|differs-from-node-counterpart|filter=%s" % (T, alias, filt),
+                                      "edges %s, edges of the nodes of levelorder_node_iter %s" % (
+                                          self.names(got, True), self.names([id(nd._edge) for nd in cp], True)),
+                                      {"tree": self.newick, "filter": filt})
+            C(T + "leaf_edge_iter", lambda: tree.leaf_edge_iter(fe), [eid[i] for i in pre if leaf[i] and oke[i]], filt, edges=True)
+            C(T + "edges", lambda: tree.edges(fe), E(pre), filt, edges=True)
+            if inorder is not None:
+                C(T + "inorder_node_iter", lambda: tree.inorder_node_iter(fn), N(inorder), filt, limit=self.limit_quadratic)
+                C(T + "inorder_edge_iter", lambda: tree.inorder_edge_iter(fe), E(inorder), filt, edges=True, limit=self.limit_quadratic)
+            else:
+                self.expect_typeerror(T + "inorder_node_iter", lambda: tree.inorder_node_iter(fn), filt)
+                self.expect_typeerror(T + "inorder_edge_iter", lambda: tree.inorder_edge_iter(fe), filt)
+        C("Tree.__iter__", lambda: iter(tree), [nid[i] for i in pre], "none")
+        C("Tree.leaf_nodes", lambda: tree.leaf_nodes(), [nid[i] for i in pre if leaf[i]], "none")
+        C("Tree.leaf_edges", lambda: tree.leaf_edges(), [eid[i] for i in pre if leaf[i]], "none", edges=True)
         for ex in (False, True):
-            self.compare("Tree.internal_nodes", tree.internal_nodes(exclude_seed_node=ex),
-                         [nid(s) for s in pre if s[3] and not (ex and is_seed(s))], "none" + (",exclude_seed" if ex else ""))
-            self.compare("Tree.internal_edges", tree.internal_edges(exclude_seed_edge=ex),
-                         [edge_id(s) for s in pre if s[3] and not (ex and is_seed(s))], "none" + (",exclude_seed" if ex else ""), edges=True)
-        if not binary:
-            try:
-                list(tree.inorder_node_iter())
-                ctx.violation("Tree.inorder_node_iter|no-TypeError-on-non-binary-tree", "in-order on a non-binary tree did not raise", {"tree": self.newick})
-            except TypeError:
-                ctx.ev("inorder-typeerror-seen")
-            except Exception as e:
-                ctx.unexpected("Tree.inorder_node_iter", e, {"tree": self.newick})
-        ctx.ev("trace-compared")
-        nl = sum(1 for s in pre if not s[3])
-        if len(tree) != nl:
-            ctx.violation("Tree.__len__|not-the-number-of-leaves", "len(tree)=%d, %d leaves" % (len(tree), nl), {"tree": self.newick})
-        # ---- age order: ages assigned by the harness (arbitrary, with ties)
-        ages = {}
-        for s in pre:
-            node_of(s).age = ages[nid(s)] = rng.choice([0, 0, 1, 2.5, 3, 7])
-        for incl in (True, False):
-            for desc in (False, True):
-                for filt in ("none", "bool"):
-                    fn = make_filter(filt, marks_n)
-                    want = set(nid(s) for s in pre if (incl or s[3]) and (filt == "none" or nid(s) in marks_n))
-                    self.check_age("Tree.ageorder_node_iter", tree.ageorder_node_iter(include_leaves=incl, filter_fn=fn, descending=desc),
-                                   want, ages, desc, "%s,leaves=%s,desc=%s" % (filt, incl, desc))
-        # ---- Tree.apply
-        self.check_apply("Tree.apply", tree, spec)
+            f2 = "none" + (",exclude_seed" if ex else "")
+            C("Tree.internal_nodes", lambda: tree.internal_nodes(exclude_seed_node=ex),
+              [nid[i] for i in pre if not leaf[i] and not (ex and i == 0)], f2)
+            C("Tree.internal_edges", lambda: tree.internal_edges(exclude_seed_edge=ex),
+              [eid[i] for i in pre if not leaf[i] and not (ex and i == 0)], f2, edges=True)
+        self.check_len()
+        # ---- age order: ages assigned by the harness (arbitrary, with ties and zeros)
+        ages = self.assign_ages(rng)
+        self.age_grid_tree(rng, ages, marks_n, okn_m, "assigned")
+        # ---- Tree.apply: every non-empty callback subset
+        self.check_apply("Tree.apply", tree, 0, rng, full=True)
         # ---- Node family from every start node
-        starts = pre if all_starts else rng.sample(pre, min(len(pre), 6))
-        for st in starts:
-            nd = node_of(st)
-            sub = r_pre(st)
-            k = pre.index(st)
-            for filt in ("none", "bool", "falsy"):
-                fn = make_filter(filt, marks_n)
-                okn = (lambda s: True) if filt == "none" else (lambda s: nid(s) in marks_n)
-                N = "Node."
-                self.compare(N + "preorder_iter", nd.preorder_iter(fn), [nid(s) for s in sub if okn(s)], filt, start=k)
-                self.compare(N + "postorder_iter", nd.postorder_iter(fn), [nid(s) for s in r_post(st) if okn(s)], filt, start=k)
-                self.compare(N + "levelorder_iter", nd.levelorder_iter(fn), [nid(s) for s in r_level(st) if okn(s)], filt, start=k)
-                self.compare(N + "leaf_iter", nd.leaf_iter(fn), [nid(s) for s in sub if not s[3] and okn(s)], filt, start=k)
-                self.compare(N + "child_node_iter", nd.child_node_iter(fn), [nid(s) for s in st[3] if okn(s)], filt, start=k)
+        starts = list(pre) if all_starts else sorted(set(rng.sample(range(n), min(n, n_starts)) + [0]))
+        others = [f for f in FILTERS if f != "none"]
+        for k in starts:
+            nd = m.nodes[k]
+            sub = m.pre(k)
+            subpost = m.postorder(k)
+            sublevel = m.level(k)
+            subin = m.inorder(k)
+            anc = m.ancestors(k)
+            full = (k == 0 and full_root) or node_filters >= len(others)
+            for filt in ["none"] + (others if full else rng.sample(others, node_filters)):
+                fn = U.make_filter(filt, marks_n, rng)
+                fe = U.make_filter(filt, marks_e, rng)
+                okn = all_ok if filt == "none" else okn_m
+                oke = all_ok if filt == "none" else oke_m
+                P = "Node."
+                C(P + "preorder_iter", lambda: nd.preorder_iter(fn), [nid[i] for i in sub if okn[i]], filt, start=k)
+                C(P + "postorder_iter", lambda: nd.postorder_iter(fn), [nid[i] for i in subpost if okn[i]], filt, start=k)
+                self.compare_level(P + "levelorder_iter", lambda: nd.levelorder_iter(fn), sublevel, okn, filt, start=k)
+                self.compare_level(P + "level_order_iter", lambda: nd.level_order_iter(filter_fn=fn), sublevel, okn, filt, start=k)
+                C(P + "leaf_iter", lambda: nd.leaf_iter(fn), [nid[i] for i in sub if leaf[i] and okn[i]], filt, start=k)
+                C(P + "child_node_iter", lambda: nd.child_node_iter(fn), [nid[i] for i in m.kids[k] if okn[i]], filt, start=k)
+                C(P + "child_edge_iter", lambda: nd.child_edge_iter(fe), [eid[i] for i in m.kids[k] if oke[i]], filt, edges=True, start=k)
                 for ex in (False, True):
-                    keep = lambda s: s[3] and not (ex and is_seed(s))
-                    self.compare(N + "preorder_internal_node_iter", nd.preorder_internal_node_iter(fn, exclude_seed_node=ex),
-                                 [nid(s) for s in sub if keep(s) and okn(s)], filt + (",exclude_seed" if ex else ""), start=k)
-                    self.compare(N + "postorder_internal_node_iter", nd.postorder_internal_node_iter(fn, exclude_seed_node=ex),
-                                 [nid(s) for s in r_post(st) if keep(s) and okn(s)], filt + (",exclude_seed" if ex else ""), start=k)
-                anc = []
-                p = self.pm[id(st)]
-                while p is not None:
-                    anc.append(p)
-                    p = self.pm[id(p)]
+                    f2 = filt + (",exclude_seed" if ex else "")
+                    C(P + "preorder_internal_node_iter", lambda: nd.preorder_internal_node_iter(fn, exclude_seed_node=ex),
+                      [nid[i] for i in sub if not leaf[i] and not (ex and i == 0) and okn[i]], f2, start=k)
+                    C(P + "postorder_internal_node_iter", lambda: nd.postorder_internal_node_iter(fn, exclude_seed_node=ex),
+                      [nid[i] for i in subpost if not leaf[i] and not (ex and i == 0) and okn[i]], f2, start=k)
                 for incl in (False, True):
-                    seq = ([st] if incl else []) + anc
-                    self.compare(N + "ancestor_iter", nd.ancestor_iter(fn, inclusive=incl), [nid(s) for s in seq if okn(s)],
-                                 filt + (",inclusive" if incl else ""), start=k)
-                try:
-                    want = [nid(s) for s in r_in(st) if okn(s)]
-                except TypeError:
-                    want = None
-                if want is not None:
-                    self.compare(N + "inorder_iter", nd.inorder_iter(fn), want, filt, start=k)
-            self.compare("Node.__iter__", iter(nd), [nid(s) for s in sub], "none", start=k)
-            self.compare("Node.leaf_nodes", nd.leaf_nodes(), [nid(s) for s in sub if not s[3]], "none", start=k)
-            self.compare("Node.child_nodes", nd.child_nodes(), [nid(s) for s in st[3]], "none", start=k)
-            self.compare("Node.child_edge_iter", nd.child_edge_iter(), [edge_id(s) for s in st[3]], "none", edges=True, start=k)
-            self.check_age("Node.ageorder_iter", nd.ageorder_iter(), set(nid(s) for s in sub), ages, False, "none", start=k)
-            self.check_apply("Node.apply", nd, st, start=k)
+                    seq = ([k] if incl else []) + anc
+                    C(P + "ancestor_iter", lambda: nd.ancestor_iter(fn, inclusive=incl), [nid[i] for i in seq if okn[i]],
+                      filt + (",inclusive" if incl else ""), start=k)
+                if subin is not None:
+                    C(P + "inorder_iter", lambda: nd.inorder_iter(fn), [nid[i] for i in subin if okn[i]], filt, start=k,
+                      limit=self.limit_quadratic)
+                else:
+                    self.expect_typeerror(P + "inorder_iter", lambda: nd.inorder_iter(fn), filt, start=k)
+                # age order of the subtree: own filter application, own parameter order
+                grid = [(i, d) for i in (True, False) for d in (False, True)]
+                for incl, desc in (grid if full else rng.sample(grid, grid_at_starts)):
+                    want = set(nid[i] for i in sub if (incl or not leaf[i]) and okn[i])
+                    tag = "%s,leaves=%s,desc=%s" % (filt, incl, desc)
+                    style = rng.randrange(3)
+                    if style == 0:
+                        self.check_age(P + "ageorder_iter", lambda: nd.ageorder_iter(fn, incl, desc), want, ages, desc, tag, filt, k)
+                    elif style == 1:
+                        self.check_age(P + "ageorder_iter", lambda: nd.ageorder_iter(filter_fn=fn, include_leaves=incl, descending=desc),
+                                       want, ages, desc, tag, filt, k)
+                    else:
+                        self.check_age(P + "age_order_iter", lambda: nd.age_order_iter(incl, fn, desc), want, ages, desc, tag, filt, k)
+            C("Node.__iter__", lambda: iter(nd), [nid[i] for i in sub], "none", start=k)
+            C("Node.leaf_nodes", lambda: nd.leaf_nodes(), [nid[i] for i in sub if leaf[i]], "none", start=k)
+            C("Node.child_nodes", lambda: nd.child_nodes(), [nid[i] for i in m.kids[k]], "none", start=k)
+            C("Node.child_edges", lambda: nd.child_edges(), [eid[i] for i in m.kids[k]], "none", edges=True, start=k)
+            self.check_age("Node.ageorder_iter", lambda: nd.ageorder_iter(), set(nid[i] for i in sub), ages, False, "defaults", "none", k)
+            self.check_age("Node.age_order_iter", lambda: nd.age_order_iter(), set(nid[i] for i in sub), ages, False, "defaults", "none", k)
+            self.check_apply("Node.apply", nd, k, rng, full=(k == 0 and full_root))
+        # ---- ages assigned a second time: the same tree queried again must follow the new ages
+        if rng.random() < 0.3:
+            ages = self.assign_ages(rng)
+            self.age_grid_tree(rng, ages, marks_n, okn_m, "re-assigned", sample=4)
 
-    def check_age(self, what, it, want_set, ages, desc, filt, start=None):
+    # ---- len --------------------------------------------------------------------------------------
+    def check_len(self):
         ctx = self.ctx
-        try:
-            got = [id(x) for x in it]
-        except core.CaseTimeout:
-            raise
-        except Exception as e:
-            ctx.unexpected(what, e, {"tree": self.newick, "filter": filt})
+        m = self.m
+        nl = sum(1 for x in m.leaf if x)
+        det = {"tree": self.newick}
+        ok, got = self.guarded("Tree.__len__", lambda: len(self.tree), det)
+        if ok is not True:
             return
         ctx.ev("trace-compared")
-        if len(got) != len(set(got)) or set(got) != want_set:
-            ctx.violation("%s|not-a-permutation-of-the-node-set" % what, "visited %s" % self.names(got),
-                          {"tree": self.newick, "filter": filt, "start": start})
+        ctx.ev("len-compared")
+        self.seen.add(("Tree.__len__", "none"))
+        if got != nl:
+            ctx.violation("Tree.__len__|not-the-number-of-leaves", "len(tree)=%d, %d leaves" % (got, nl), det)
+
+    # ---- age order ----------------------------------------------------------------------------------
+    def assign_ages(self, rng):
+        ages = {}
+        for nd in self.m.nodes:
+            nd.age = ages[id(nd)] = rng.choice([0, 0, 1, 2.5, 3, 7])
+        return ages
+
+    def lazy_age_block(self, rng, marks_n, okn_m):
+        """ages never assigned, edge lengths exactly ultrametric: the first Tree.ageorder_node_iter call has to compute
+        them (calc_node_ages); the order is judged against the ages read back AND against the heights the lengths give."""
+        ctx = self.ctx
+        m = self.m
+        heights = m.heights()
+        if heights is None or any(nd.age is not None for nd in m.nodes):
+            raise core.HarnessBug("lazy-age case without exact ultrametric lengths / with ages already set")
+        hmap = dict((m.nid[i], heights[i]) for i in range(m.n))
+        first = [True]
+
+        def readback():
+            if first[0]:
+                first[0] = False
+                ctx.ev("lazy-ages-computed-by-first-call")
+            return dict((id(nd), nd.age) for nd in m.nodes)
+        self.age_grid_tree(rng, readback, marks_n, okn_m, "never-assigned", heights=hmap)
+        ages = readback()
+        # Node level on the lazily computed ages (root and a few other starts)
+        for k in sorted(set([0] + [rng.randrange(m.n) for _ in range(3)])):
+            nd = m.nodes[k]
+            for desc in (False, True):
+                self.check_age("Node.ageorder_iter", lambda: nd.ageorder_iter(descending=desc), set(m.nid[i] for i in m.pre(k)),
+                               ages, desc, "none,ages=never-assigned,desc=%s" % desc, "none", k, heights=hmap)
+        return ages
+
+    def age_grid_tree(self, rng, ages, marks_n, okn_m, history, heights=None, sample=None):
+        tree = self.tree
+        m = self.m
+        combos = [(incl, desc, filt) for incl in (True, False) for desc in (False, True) for filt in FILTERS]
+        if sample:
+            combos = rng.sample(combos, sample)
+        for incl, desc, filt in combos:
+            fn = U.make_filter(filt, marks_n, rng)
+            want = set(m.nid[i] for i in range(m.n) if (incl or not m.leaf[i]) and (filt == "none" or okn_m[i]))
+            tag = "%s,leaves=%s,desc=%s,ages=%s" % (filt, incl, desc, history)
+            style = rng.randrange(3)           # keyword / positional (Tree order: include_leaves, filter_fn, descending) / deprecated alias
+            if style == 0:
+                self.check_age("Tree.ageorder_node_iter", lambda: tree.ageorder_node_iter(include_leaves=incl, filter_fn=fn, descending=desc),
+                               want, ages, desc, tag, filt, heights=heights)
+            elif style == 1:
+                self.check_age("Tree.ageorder_node_iter", lambda: tree.ageorder_node_iter(incl, fn, desc),
+                               want, ages, desc, tag + ",positional", filt, heights=heights)
+            else:
+                self.check_age("Tree.age_order_node_iter", lambda: tree.age_order_node_iter(incl, fn, desc),
+                               want, ages, desc, tag, filt, heights=heights)
+        self.check_age("Tree.ageorder_node_iter", lambda: tree.ageorder_node_iter(), set(m.nid), ages, False,
+                       "defaults,ages=%s" % history, "none", heights=heights)
+
+    def check_age(self, what, thunk, want_set, ages, desc, tag, filt, start=None, heights=None):
+        ctx = self.ctx
+        got = self.drain(what, thunk, tag, start)
+        if got is None:
             return
-        seq = [ages[i] for i in got]
+        if callable(ages):
+            ages = ages()                 # read back AFTER the call that may have had to compute them
+        got = [id(x) for x in got]
+        ctx.ev("trace-compared")
+        ctx.ev("age-order-compared")
+        self.seen.add((what, filt))
+        det = {"tree": self.newick, "filter": tag, "start": start}
+        if len(got) != len(set(got)) or set(got) != want_set:
+            ctx.violation("%s|not-a-permutation-of-the-node-set|filter=%s" % (what, filt), "visited %s, reference set %s" % (
+                self.names(got), sorted(self.names(want_set))), det)
+            return
+        seq = [ages.get(i) for i in got]
+        if any(a is None for a in seq):
+            ctx.violation("%s|age-missing-after-traversal" % what, "a visited node has age None after an age-order traversal that returned normally", det)
+            return
         mono = all(a >= b for a, b in zip(seq, seq[1:])) if desc else all(a <= b for a, b in zip(seq, seq[1:]))
         if not mono:
-            ctx.violation("%s|ages-not-monotone" % what, "ages visited %s (descending=%s)" % (seq, desc),
-                          {"tree": self.newick, "filter": filt, "start": start})
+            ctx.violation("%s|ages-not-monotone" % what, "ages visited %s (descending=%s)" % (seq[:60], desc), det)
+        if heights is not None:
+            ctx.ev("age-order-vs-heights-compared")
+            hs = [heights[i] for i in got]
+            mono = all(a >= b for a, b in zip(hs, hs[1:])) if desc else all(a <= b for a, b in zip(hs, hs[1:]))
+            if not mono:
+                ctx.violation("%s|ages-not-monotone|vs-heights-from-edge-lengths" % what,
+                              "heights (sum of edge lengths to the tips) of the visited nodes %s (descending=%s), age attributes %s" % (hs[:60], desc, seq[:60]), det)
 
-    def check_apply(self, what, obj, st, start=None):
+    # ---- apply ----------------------------------------------------------------------------------------
+    APPLY_SUBSETS = ("b", "a", "l", "ba", "bl", "al")
+
+    def run_apply(self, what, obj, make, tags, det):
+        """calls obj.apply with callbacks for the tags in ``tags``; returns the trace or None after a report."""
         ctx = self.ctx
         trace = []
+        count = [0]
+        cap = 3 * self.m.n + 3
+
+        def guard():
+            count[0] += 1
+            if count[0] > cap:
+                raise _Runaway()
+        kw = {}
+        for tag, name in (("b", "before_fn"), ("a", "after_fn"), ("l", "leaf_fn")):
+            kw[name] = make(tag, trace, guard) if tag in tags else None
         try:
-            obj.apply(before_fn=lambda n: trace.append(("b", id(n))), after_fn=lambda n: trace.append(("a", id(n))),
-                      leaf_fn=lambda n: trace.append(("l", id(n))))
-        except core.CaseTimeout:
-            raise
-        except Exception as e:
-            ctx.unexpected(what, e, {"tree": self.newick, "start": start})
-            return
-        ctx.ev("apply-trace-compared")
-        want = [(k, id(self.s2n[i])) for k, i in r_apply(st)]
-        if trace != want:
-            names = dict((id(self.s2n[id(s)]), i) for i, s in enumerate(r_pre(self.spec)))
-            fmt = lambda tr: " ".join("%s:%s" % (k, names.get(i, "?")) for k, i in tr)
-            outside = [1 for k, i in trace if i not in set(i2 for _, i2 in want)]
-            clause = "callbacks-outside-the-subtree" if outside else "not-bracket-matched"
-            ctx.violation("%s|%s" % (what, clause), "trace %s ; reference %s" % (fmt(trace), fmt(want)),
-                          {"tree": self.newick, "start": start})
+            ok, _ = self.guarded(what, lambda: obj.apply(**kw), det)
+        except _Runaway:
+            ctx.violation("%s|does-not-terminate|more-callbacks-than-3n" % what, "more than %d callback invocations on a tree of %d nodes" % (cap, self.m.n), det)
+            return None
+        return trace if ok is True else None
+
+    def check_apply(self, what, obj, k, rng, full=False):
+        ctx = self.ctx
+        m = self.m
+        det = {"tree": self.newick, "start": k}
+        want = [(t, m.nid[i]) for t, i in m.apply_trace(k)]
+        plain = lambda tag, trace, guard: (lambda nd: (guard(), trace.append((tag, id(nd)))))
+        fmt = lambda tr: " ".join("%s:%s" % (t, m.idx_of_nid.get(i, "?")) for t, i in tr[:80])
+        trace = self.run_apply(what, obj, plain, "bal", det)
+        if trace is not None:
+            ctx.ev("apply-trace-compared")
+            self.seen.add((what, "callbacks=all"))
+            if trace != want:
+                inside = set(i for _, i in want)
+                outside = [1 for t, i in trace if i not in inside]
+                clause = "callbacks-outside-the-subtree" if outside else "not-bracket-matched"
+                ctx.violation("%s|%s" % (what, clause), "trace %s ; reference %s" % (fmt(trace), fmt(want)), det)
         # partial callbacks (some None) must give the matching sub-trace
-        tr2 = []
-        try:
-            obj.apply(before_fn=None, after_fn=lambda n: tr2.append(("a", id(n))), leaf_fn=None)
-            if tr2 != [x for x in want if x[0] == "a"]:
-                ctx.violation("%s|after-only-trace-wrong" % what, "after-callbacks differ from the reference", {"tree": self.newick, "start": start})
-        except Exception as e:
-            ctx.unexpected(what, e, {"tree": self.newick, "start": start})
+        for tags in (self.APPLY_SUBSETS if full else rng.sample(self.APPLY_SUBSETS, 1)):
+            tr2 = self.run_apply(what, obj, plain, tags, det)
+            if tr2 is None:
+                continue
+            ctx.ev("apply-partial-trace-compared")
+            self.seen.add((what, "callbacks=" + tags))
+            if tr2 != [x for x in want if x[0] in tags]:
+                ctx.violation("%s|partial-trace-wrong|callbacks=%s" % (what, tags),
+                              "trace %s ; reference %s" % (fmt(tr2), fmt([x for x in want if x[0] in tags])), det)
+        # callback OBJECTS that are falsy are callbacks all the same
+        if full or rng.random() < 0.15:
+            tr3 = self.run_apply(what, obj, U.FalsyCallback, "bal", det)
+            if tr3 is not None:
+                ctx.ev("apply-falsy-callable-compared")
+                self.seen.add((what, "callbacks=falsy-callable"))
+                if tr3 != want:
+                    ctx.violation("%s|not-bracket-matched|callbacks=falsy-callable" % what, "trace %s ; reference %s" % (fmt(tr3), fmt(want)), det)
 
 
 EXTRA_SHAPES = [
@@ -313,9 +536,13 @@ EXTRA_SHAPES = [
     ref.S(None, [ref.S(None, [ref.S("T%d" % i) for i in range(5)]), ref.S(None, [ref.S("U%d" % i) for i in range(6)]), ref.S("V")]),
     ref.S(None, [ref.S("A"), ref.S(None, [ref.S("B"), ref.S(None, [ref.S("C"), ref.S("D")])])]),   # witness of apply() at a last child
 ]
+DEEP_DEPTH = {"quick": (1500,), "thorough": (1500, 2500)}
 
 
 def cases(tier, seed):
+    for depth in DEEP_DEPTH[tier]:
+        for kind in U.DEEP_KINDS:
+            yield {"kind": "deep", "shape": kind, "depth": depth, "seed": seed}
     for i in range(len(EXTRA_SHAPES)):
         yield {"kind": "extra", "i": i, "seed": seed}
     for n in range(1, 6):
@@ -323,17 +550,44 @@ def cases(tier, seed):
             if tier == "quick" and n == 5 and (idx + seed) % 3:
                 continue
             yield {"kind": "shape", "n": n, "idx": idx, "seed": seed}
-    for i in range(4000 if tier == "quick" else 20000):
+    for i in range(2400 if tier == "quick" else 6000):
         yield {"kind": "random", "i": i, "seed": seed}
 
 
+def shard_setup(ctx):
+    U.selftest(EXTRA_SHAPES)
+
+
+def _silence_deprecations():
+    if not _STATE["deprecations_silenced"]:
+        from dendropy.utility import deprecate
+        deprecate.configure_deprecation_warning_behavior("ignore")
+        _STATE["deprecations_silenced"] = True
+
+
 def run_case(case, ctx):
+    try:
+        _run_case(case, ctx)
+    except core.CaseTimeout:
+        _STATE["budget_all"] = True
+        raise
+
+
+def _run_case(case, ctx):
     import dendropy
+    U.selftest(EXTRA_SHAPES)
+    _silence_deprecations()
     rng = random.Random("%s/%s" % (case["seed"], sorted((k, str(v)) for k, v in case.items())))
     all_starts = True
-    if case["kind"] == "extra":
+    treetext = None
+    kind = case["kind"]
+    if kind == "deep":
+        spec = U.deep_spec(case["shape"], case["depth"])
+        all_starts = False
+        treetext = "<%s of depth %d>" % (case["shape"], case["depth"])
+    elif kind == "extra":
         spec = ref.copy(EXTRA_SHAPES[case["i"]])
-    elif case["kind"] == "shape":
+    elif kind == "shape":
         spec = gen.shape_to_spec(gen.all_shapes(case["n"])[case["idx"]])
         if rng.random() < 0.3:
             spec = gen.insert_unary(spec, rng, 0.3)
@@ -343,20 +597,90 @@ def run_case(case, ctx):
         spec = gen.random_spec(rng, n, p_poly=rng.choice([0, 0, 0.3, 0.7]), p_unary=rng.choice([0, 0.1, 0.3]),
                                shape=rng.choice([None, None, None, "caterpillar", "star", "balanced"]))
         all_starts = n <= 40
-    if rng.random() < 0.3:
+    if kind != "deep" and rng.random() < 0.3:
         # taxa on internal nodes as well (len(tree) must still count leaves only)
         for k, n in enumerate(ref.preorder(spec)):
             if n[3] and rng.random() < 0.6:
                 n[0] = "I%d" % k
+    history = "fresh"
+    r = rng.random()
+    if kind == "deep":
+        history = "lazy-ages" if case["shape"] != "unary-chain" else "fresh"
+    elif r < 0.3:
+        history = "lazy-ages"
+    elif r < 0.55:
+        history = "edited"
+    elif r < 0.65:
+        history = "traversed-edited-traversed"
+    if history == "lazy-ages":
+        gen.ultrametric_lengths(spec, rng, dyadic=True)
     labels = sorted(n[0] for n in ref.preorder(spec) if n[0] is not None)
     ns = dendropy.TaxonNamespace(labels)
     tree = bridge.build_tree(spec, ns, rng.choice([True, False]))
-    ch = Checker(ctx, tree, case)
-    ch.run(rng, all_starts)
-    if ref.n_nodes(spec) >= 3:
-        for it in ("pre", "post", "level", "in", "leaf", "age", "internal", "edge", "apply"):
-            for f in FILTERS:
-                ctx.nontrivial((ref.ordered(spec, lengths=False), it, f))
-    if case["kind"] == "extra" or case.get("i", 9) < 2 and case["kind"] == "random":
-        ctx.sample({"kind": case["kind"], "tree": ref.to_newick(spec), "iterators": "all Tree.* and Node.* iterators from every start node",
-                    "filters": list(FILTERS)})
+    # budgeted: all directed and exhaustive-shape cases and every 6th random case; every case once anything ran away
+    budgeted = kind != "random" or case["i"] % 6 == 0
+    nf = 2
+    counter = [0]
+    edits = []
+    if history == "edited":
+        tree = _edit(ctx, tree, rng, counter, edits, rng.randint(1, 3))
+        if tree is None:
+            return
+    ctx.ev("history:" + history)
+    ch = Checker(ctx, tree, case, budgeted, treetext)
+    deep = kind == "deep"
+    ch.run(rng, all_starts, lazy_ages=(history == "lazy-ages"), node_filters=nf, n_starts=3 if deep else 6, full_root=not deep)
+    seen = ch.seen
+    n_nodes = ch.m.n
+    if history == "traversed-edited-traversed":
+        tree2 = _edit(ctx, tree, rng, counter, edits, 1)
+        if tree2 is not None:
+            ch2 = Checker(ctx, tree2, case, budgeted)
+            ch2.run(rng, all_starts, node_filters=nf)
+            seen = seen | ch2.seen
+            ctx.ev("second-traversal-after-edit")
+    if n_nodes >= 3:
+        # ordered shape signature = the pre-order sequence of out-degrees (built without recursion)
+        sig = treetext or core.short_hash(",".join(str(len(k)) for k in ch.m.kids))
+        for what, filt in seen:
+            ctx.nontrivial((sig, what, filt))
+    if kind in ("extra", "deep") or case.get("i", 9) < 2 and kind == "random":
+        ctx.sample({"kind": kind, "tree": treetext or ref.to_newick(spec), "history": history, "edits": edits,
+                    "iterators": "all Tree.* and Node.* iterators from every start node", "filters": list(FILTERS)})
+
+
+def _edit(ctx, tree, rng, counter, edits, k):
+    """k library edits; returns the tree to traverse, or None when the result is not a well-formed tree any more
+    (recorded, not judged: the mutators belong to other properties)."""
+    size = len(U.raw_nodes(tree)) + 3
+    for _ in range(k):
+        name = rng.choice(U.EDITS)
+        try:
+            # the mutators, the Newick writer/reader, clone ... iterate over the tree themselves: a runaway iterator must not
+            # hang here, outside the judged calls (recorded, the verdict comes from the judged calls)
+            with _budget.budget(100000 + 50 * size * size):
+                t2 = U.apply_edit(name, tree, rng, counter)
+        except _budget.StepBudgetExceeded:
+            _STATE["budget_all"] = True
+            ctx.note("edit-exceeded-step-budget:%s" % name)
+            return None
+        except core.CaseTimeout:
+            raise
+        except Exception as e:
+            ctx.note("edit-raised:%s:%s" % (name, type(e).__name__))
+            t2 = tree
+            name += "(raised %s)" % type(e).__name__
+        if t2 is None:
+            ctx.note("edit-not-applicable:%s" % name)
+            continue
+        tree = t2
+        edits.append(name)
+        ctx.ev("edit:" + name.split("(")[0])
+    try:
+        probs = arbor.check(tree, iterators=False)
+    except Exception as e:
+        probs = ["arborescence walker raised %s" % type(e).__name__]
+    if probs:
+        ctx.note("edited-tree-not-well-formed:%s:%s" % ("+".join(edits[-k:]), probs[0]))
+        return None
+    return tree
